@@ -48,8 +48,8 @@ MUTANTS = {
            "ristretto255 rerandomized::aggregate_custom ignores the requested cheater detection"),
     "W8": (["C18"], "frost-secp256k1-tr/src/lib.rs",
            "    frost::aggregate(signing_package, signature_shares, &public_key_package)\n}\n\n/// A signing key",
-           "    frost::aggregate(signing_package, signature_shares, &public_key_package)\n        .map_err(|_| Error::InvalidSignature)\n}\n\n/// A signing key",
-           "secp256k1-tr aggregate_with_tweak replaces every error by InvalidSignature"),
+           "    frost::aggregate(signing_package, signature_shares, &public_key_package)\n        .map_err(|e| if e.culprits().is_empty() { Error::InvalidSignature } else { e })\n}\n\n/// A signing key",
+           "secp256k1-tr aggregate_with_tweak replaces every error that names nobody by InvalidSignature"),
 }
 
 
